@@ -357,6 +357,22 @@ def matches_known(v: Violation, known: list[dict]) -> Optional[dict]:
     return None
 
 
+def _demote_harness_errors(kres: KResult) -> None:
+    """An exception while DRIVING the implementation (signature `…impl-error`) is not a failure of the property statement on
+    a concrete input: it may come from the harness's own coupling to private names (a harmless refactoring breaks it) as well
+    as from the code. It means the correspondence no longer checks — reported as such (`no-failing-input-found` unless the
+    monitor finds a real failing input elsewhere), never as a violation with that case as its "failing input"."""
+    infra = [v for v in kres.violations if str(v.signature).endswith('impl-error')]
+    if not infra:
+        return
+    kres.violations = [v for v in kres.violations if v not in infra]
+    for v in infra[:20]:
+        kres.disagreements.append(Disagreement(v.case, f'{v.signature}: {v.what}'[:400],
+                                               '(the harness could not drive the implementation on this case)', 'harness'))
+    kres.notes.append(f'{len(infra)} case(s) could not be driven (exception in harness or implementation): '
+                      f'{infra[0].signature}: {infra[0].what}'[:300])
+
+
 def run_check(prop: Property, tier: str, seed: int) -> int:
     t0 = time.time()
     tier = 'thorough' if tier == 'thorough' else 'quick'
@@ -446,6 +462,15 @@ def run_check(prop: Property, tier: str, seed: int) -> int:
     except LeanError as e:
         print(f'INFRA-ERROR: {e}', file=sys.stderr)
         return 2
+    except RuntimeError as e:
+        if 'CASE-TIMEOUT' not in str(e):
+            raise
+        # the real code (or the harness on it) does not terminate on some generated case: nothing was compared
+        kres = KResult()
+        kres.model_available = model_ok
+        kres.disagreements.append(Disagreement({'timeout': str(e)[:800]}, 'does not terminate', '(terminates)', 'case-timeout'))
+        kres.notes.append(str(e)[:800])
+    _demote_harness_errors(kres)
     if kres.disagreements:
         broken.append('correspondence')
     obligations.append({'name': f'correspondence K_{prop.id} (model = implementation on generated cases)',
@@ -458,6 +483,7 @@ def run_check(prop: Property, tier: str, seed: int) -> int:
         try:
             extra = prop.correspondence(seed + 7919, tier, model_ok, widen=4)
             kres.notes.append(f'widened search: {extra.evaluations} more cases')
+            _demote_harness_errors(extra)
             kres.violations += extra.violations
             kres.evaluations += extra.evaluations
             kres.nontrivial_keys |= extra.nontrivial_keys
@@ -579,9 +605,45 @@ def run_replay(prop: Property, path: str) -> int:
     return rc
 
 
-def parallel_map(fn: Callable, items: list, workers: Optional[int] = None, chunksize: int = 8) -> list:
-    """Run fn over items in a fork pool (fn must be a module-level function)."""
+class CaseTimeout(BaseException):
+    """One case of a correspondence run did not return within the wall-clock guard (a BaseException so that the library's
+    and the harness's own `except Exception` arms cannot swallow it)."""
+
+
+class _Guarded:
+    """Picklable wrapper: runs fn(item) under a wall-clock alarm. (Harness code that installs its own ITIMER_REAL guard —
+    vlib/simloop.run — replaces this one for the duration of its run; those cases are bounded by that guard.)"""
+
+    def __init__(self, fn, seconds):
+        self.fn, self.seconds = fn, seconds
+
+    def __call__(self, item):
+        import signal
+
+        def on_alarm(_sig, _frm):
+            raise CaseTimeout(f'case did not terminate within {self.seconds:.0f} s')
+        try:
+            old = signal.signal(signal.SIGALRM, on_alarm)
+        except ValueError:          # not in the main thread
+            return self.fn(item)
+        signal.setitimer(signal.ITIMER_REAL, self.seconds)
+        try:
+            return self.fn(item)
+        except CaseTimeout as e:
+            raise RuntimeError(f'CASE-TIMEOUT: {e}; case: {json.dumps(item, default=str)[:600]}') from None
+        finally:
+            signal.setitimer(signal.ITIMER_REAL, 0)
+            signal.signal(signal.SIGALRM, old)
+
+
+def parallel_map(fn: Callable, items: list, workers: Optional[int] = None, chunksize: int = 8,
+                 item_timeout: Optional[float] = 300.0) -> list:
+    """Run fn over items in a fork pool (fn must be a module-level function). Every item runs under a wall-clock guard: a
+    case on which the real code does not terminate ends the run with RuntimeError('CASE-TIMEOUT …'), which `run_check` reports
+    as a correspondence that no longer checks (not as a hung check)."""
     import multiprocessing as mp
+    if item_timeout:
+        fn = _Guarded(fn, item_timeout)
     if workers is None:
         workers = min(16, os.cpu_count() or 4)
     if len(items) < 16 or workers <= 1 or os.environ.get('VERIF_SERIAL'):
